@@ -17,10 +17,7 @@ def foldStepOrd (dropOrd readOrd writeOrd : List Node → List Node) (renameOrd 
   let drop := stmtDrop h
   let ren := stmtRename h
   if !drop.isEmpty then .ok (dropStep g (dropOrd drop))
-  else if !ren.isEmpty then
-    match renameStep g (renameOrd ren) with
-    | some g' => .ok g'
-    | none => .error (.internal "remove_edge")
+  else if !ren.isEmpty then .ok (renameStep g (renamesInOrder h (renameOrd ren)))
   else .ok (rwStep g (readOrd (stmtRead h)) (writeOrd (stmtWrite h)))
 
 /-- the four set‑iteration orders of one run -/
